@@ -23,13 +23,16 @@ def run(tier, seed):
     from contracts import fn_resume as RS
     from contracts import fn_sequence as Q
     items += [(Q.system_reset('C14'),), (Q.p_restore('C14'),), (Q.delegation('C14', 'e_clear', 'e_clear'),)]
-    items += [(RS.dae_reset('C14'),), (RS.dae_init_t('C14'),), (RS.fix_view_arrays('C14'), None, RS.replay_snapshot),
+    items += [(RS.dae_reset('C14'),), (RS.dae_resize_arrays('C14'), None, RS.replay_resize_arrays), (RS.dae_init_t('C14'),), (RS.fix_view_arrays('C14'), None, RS.replay_snapshot),
               (__import__('contracts.fn_address', fromlist=['x']).set_arrays_inplace('C14'),),
               (RS.save_ss_c('C14'), None, RS.replay_snapshot), (RS.load_ss_c('C14'), None, RS.replay_snapshot)]
     # a restored system computes with the restored arrays: every per-call argument list is rebuilt from the name table (also the
     # lists of the variable services, which are evaluated in every iteration), whatever state the model's flags are in
     from contracts import C02_binding as B2
     items += [(B2.refresh_inputs_arg('C14'), None, B2.replay_inputs_arg)]
+    # the setup inside reset() rebuilds the bus-status bookkeeping from scratch, so the devices of an out-of-service bus go off again
+    from contracts import fn_connman as GC
+    items += [(GC.conn_init('C14'), None, GC.replay_conn_init)]
     run_contracts(pack, items)
     RS.bounded_reset(pack, 'C14')
     from contracts.packutil import native_guard
